@@ -85,6 +85,7 @@ type Frame struct {
 	stamps     map[ssa.Value]string
 	iterSeq    map[ssa.Value]string
 	nilChecked map[string]*ssa.BasicBlock
+	curArgVals []ssa.Value
 }
 
 func newFnCtx(e *Engine, fn *ssa.Function, fc *FuncContract) *FnCtx {
@@ -112,6 +113,16 @@ func (c *FnCtx) obligation(kind, label string, pos token.Pos, src string, guard,
 	o := &Obligation{Name: name, Kind: kind, Func: c.fnName(), Pos: p, Src: src, Guard: guard, Goal: goal, Props: props}
 	c.obls = append(c.obls, o)
 	return o
+}
+
+// continueAfterFalse: an obligation with goal "false" (a guard that fires whenever its site is reachable) after
+// which generation goes on.  Everything later is put under a fresh free boolean, so that a later assumption
+// which contradicts the path cannot make the site look unreachable (assert-then-assume discipline).
+func (c *FnCtx) continueAfterFalse(st *State) {
+	c.skipCnt++
+	n := fmt.Sprintf("skip!%d", c.skipCnt)
+	c.emit(fmt.Sprintf("(declare-const %s Bool)\n", n))
+	st.reach = c.define("reach", "Bool", and(st.reach, n))
 }
 
 func (c *FnCtx) fnName() string {
@@ -753,6 +764,7 @@ func (fr *Frame) enterLoop(li *loopInfo, h *ssa.BasicBlock, preds []*ssa.BasicBl
 	if li.spec != nil {
 		for i, p := range preds {
 			en := fr.invEnv(h, fr.phiSubFor(h, p), states[i])
+			entryOK := "true"
 			for _, inv := range li.spec.Invariants {
 				g, err := en.EvalBool(inv.E)
 				if err != nil {
@@ -760,6 +772,14 @@ func (fr *Frame) enterLoop(li *loopInfo, h *ssa.BasicBlock, preds []*ssa.BasicBl
 					continue
 				}
 				c.obligation("inv-entry", fmt.Sprintf("L%d", li.ord), li.pos, "loop "+fmt.Sprint(li.ord)+" invariant "+inv.Src, edges[i], g, inv.Props)
+				// assert-then-assume: what follows (the invariant assumed for the havocked state included)
+				// is only reachable when the invariant held on entry; otherwise the parts of the assumed
+				// invariant that do not mention loop-modified state would leak back into this obligation
+				entryOK = and(entryOK, g)
+			}
+			if entryOK != "true" {
+				edges = append([]string(nil), edges...)
+				edges[i] = c.define("edge", "Bool", and(edges[i], entryOK))
 			}
 		}
 	}
@@ -1957,8 +1977,41 @@ func sameLoc(a, b *LVal) bool {
 	return true
 }
 
+// structHasSlice: a struct type with a (mutable) slice field, directly or in a nested struct value.
+func structHasSlice(t types.Type, depth int) bool {
+	st, ok := types.Unalias(t).Underlying().(*types.Struct)
+	if !ok || depth > 3 {
+		return false
+	}
+	for i := 0; i < st.NumFields(); i++ {
+		ft := st.Field(i).Type()
+		if isMutableSlice(ft) || structHasSlice(ft, depth+1) {
+			return true
+		}
+	}
+	return false
+}
+
 func (fr *Frame) aliasCheckStore(x *ssa.Store, st *State) {
 	c := fr.c
+	if fr.top && c.fc != nil && structHasSlice(x.Val.Type(), 0) {
+		// a whole struct value loaded through a pointer and stored elsewhere: its slice fields are shared
+		if u, ok := x.Val.(*ssa.UnOp); ok && u.Op == token.MUL {
+			src := fr.lvalOf(u.X, st)
+			dst := fr.lvalOf(x.Addr, st)
+			if !sameLoc(src, dst) && src.kind != lvLocal && dst.kind != lvLocal {
+				if c.fc.AllowAlias != "" {
+					c.abstracted("alias allowed: " + c.fc.AllowAlias)
+					return
+				}
+				_, line := c.eng.srcLine(x.Pos())
+				ob := c.obligation("alias", "", x.Pos(), line, st.reach, "false", nil)
+				c.continueAfterFalse(st)
+				ob.Note = "a struct value with slice fields is copied from one object to another: the copies share the backing arrays of those slices (outside the value-semantics model, A-ALIAS)"
+			}
+		}
+		return
+	}
 	if !fr.top || c.fc == nil || !isMutableSlice(x.Val.Type()) {
 		return
 	}
@@ -1983,6 +2036,7 @@ func (fr *Frame) aliasCheckStore(x *ssa.Store, st *State) {
 	}
 	_, line := c.eng.srcLine(x.Pos())
 	ob := c.obligation("alias", "", x.Pos(), line, st.reach, "false", nil)
+	c.continueAfterFalse(st)
 	ob.Note = "a slice loaded from one location is stored into another without a copy: the two share a backing array, in-place writes through one are visible through the other (outside the value-semantics model, A-ALIAS)"
 }
 
@@ -2018,6 +2072,7 @@ func (fr *Frame) aliasCheckCall(fc *FuncContract, callee *ssa.Function, cc *ssa.
 		}
 		_, line := c.eng.srcLine(pos)
 		ob := c.obligation("alias", "", pos, line, st.reach, "false", nil)
+		c.continueAfterFalse(st)
 		ob.Note = "a slice loaded from a location is handed to " + shortFuncName(callee.String()) + ", which keeps it (retains " + p.Name() + "): the two locations share a backing array (outside the value-semantics model, A-ALIAS)"
 	}
 }
